@@ -72,14 +72,24 @@ def run(tier, mode):
             after = text[wpos:wpos + 60]
             in_pm_gap = bool(PM_RGX.search(after)) and (any(wpos - m.end() <= 30 for m in twprge_regex.finditer(before))
                                                         or bool(re.search(r'\d\D{0,30}$', before)))
+            # known: a word starting with N/S/E/W placed directly after a township or range number that lacks its direction
+            # letter loses that first letter to the Twp/Rge match (the rest of the word stays)
+            dir_letter = w[0].lower() in 'nsew' and bool(re.search(r'\d\W{0,3}$', before)) and (where_is(w[1:], d) is not None)
+            kid = 'C04-pm-gap' if in_pm_gap else ('C04-direction-letter' if dir_letter else None)
             fails.append({'kind': 'word_lost', 'detail': {'text': text, 'word': w, 'config': cfg}, 'got': repr([(t.trs, t.desc) for t in d.tracts][:3]) + ' e_flags=' + repr(d.e_flags)[:120],
-                          'want': f'{w} in a tract desc or an unused_desc flag', 'known_id': 'C04-pm-gap' if in_pm_gap else None})
+                          'want': f'{w} in a tract desc or an unused_desc flag', 'known_id': kid})
     # the known finding, probed explicitly
     t = 'T154N-R97W, ZZZQ of the 5th P.M. Sec 14: NE/4'
     d = pytrs.PLSSDesc(t)
     n_or += 1
     if not where_is('ZZZQ', d):
         fails.append({'kind': 'word_lost', 'detail': {'text': t, 'word': 'ZZZQ', 'config': ''}, 'got': repr([(x.trs, x.desc) for x in d.tracts]), 'want': 'ZZZQ kept', 'known_id': 'C04-pm-gap'})
+    t = 'Twp. 15 N., Rge. 97 wherein E. Sec 1: NE/4'
+    d = pytrs.PLSSDesc(t)
+    n_or += 1
+    if not where_is('wherein', d):
+        fails.append({'kind': 'word_lost', 'detail': {'text': t, 'word': 'wherein', 'config': ''}, 'got': repr([(x.trs, x.desc) for x in d.tracts]), 'want': 'wherein kept',
+                      'known_id': 'C04-direction-letter' if where_is('herein', d) else None})
     parts = {}
     if mode != 'search':
         parts['model_vs_code'] = plsscorr.run(tier, 'c04', extra_texts=texts[:150 if tier == 'quick' else 2000], configs=MODES, functions=False, n=20 if tier == 'quick' else 200)
